@@ -214,7 +214,23 @@ func verdict(c *core.Ctx, r result, history *[]string, mu *sync.Mutex) {
 	}
 }
 
-func dial(srv *echoServer) *kmipclient.Client {
+// flakyCloseConn is a transport whose first Close reports an error and closes nothing (an interrupted close on a
+// tunnelled transport): the connection object stays usable, but the client has given it up.
+type flakyCloseConn struct {
+	net.Conn
+	failed atomic.Bool
+}
+
+func (f *flakyCloseConn) Close() error {
+	if !f.failed.Swap(true) {
+		return &net.OpError{Op: "close", Net: "mem", Err: syscall.EINTR}
+	}
+	return f.Conn.Close()
+}
+
+func dial(srv *echoServer) *kmipclient.Client { return dialWith(srv, false) }
+
+func dialWith(srv *echoServer, flakyClose bool) *kmipclient.Client {
 	cl, err := kmipclient.Dial("mem", kmipclient.WithDialerUnsafe(func(context.Context) (net.Conn, error) {
 		cc, err := srv.L.Dial()
 		if err != nil {
@@ -223,6 +239,9 @@ func dial(srv *echoServer) *kmipclient.Client {
 		srv.mu.Lock()
 		srv.conns = append(srv.conns, cc)
 		srv.mu.Unlock()
+		if flakyClose {
+			return &flakyCloseConn{Conn: cc}, nil
+		}
 		return cc, nil
 	}), kmipclient.EnforceVersion(kmip.V1_4))
 	if err != nil {
@@ -237,8 +256,11 @@ func directed(c *core.Ctx, r *core.Rand, i int) {
 	defer ctl.Uninstall()
 	srv := newEcho()
 	defer srv.Close()
-	cl := dial(srv)
+	cl := dialWith(srv, i%3 == 1)
 	defer cl.Close()
+	if i%3 == 1 {
+		c.Count("directed_with_failing_close", 1)
+	}
 	var hist []string
 	var mu sync.Mutex
 	seq := ""
@@ -574,7 +596,7 @@ func Spec() *core.Spec {
 			"while the server holds the response, 2 ms deadline}, always followed by further calls; stress: 2..32 goroutines sharing one client, 6 calls each with seeded plans (race detector on). " +
 			"a plan where the server writes a server-to-client request ahead of the response; a plan where the Write that delivered the request reports an error; a client and its clones (some cloned while the dialer fails) used concurrently with pauses between write and wait; the client against the library server with requests above its size limit mixed in; whole responses kept by their callers and re-read after all later calls; distinct = distinct call histories (ids, plans, outcomes in completion order)",
 		Assumptions: []string{"cancellation instants are placed by the verif hooks client.send.loaded and client.roundtrip.sent, which sit where the scheduler may preempt anyway"},
-		Required:    []string{"calls", "calls_returning_response", "calls_returning_error", "cancel.before-send", "cancel.at-send-loaded", "cancel.between-send-and-recv", "cancel.while-server-holds", "hook.client.roundtrip.sent", "stress_rounds", "server_pushes", "calls.server-push-before-response", "write_errors_after_flush", "held_responses", "oversized_requests", "real_server_calls", "clone_rounds", "clones_with_failing_dial", "clone_rounds_with_slow_writes", "connections_dropped_mid_call", "drop_rounds"},
+		Required:    []string{"calls", "calls_returning_response", "calls_returning_error", "cancel.before-send", "cancel.at-send-loaded", "cancel.between-send-and-recv", "cancel.while-server-holds", "hook.client.roundtrip.sent", "stress_rounds", "server_pushes", "calls.server-push-before-response", "write_errors_after_flush", "held_responses", "oversized_requests", "real_server_calls", "clone_rounds", "clones_with_failing_dial", "clone_rounds_with_slow_writes", "directed_with_failing_close", "connections_dropped_mid_call", "drop_rounds"},
 		// the pairing of requests and responses of concurrent calls rests on the client serialising its calls: two calls of
 		// one client racing with each other inside the round trip are not serialised
 		RaceVerdict: func(r core.RaceReport) (string, bool) {
